@@ -31,8 +31,8 @@ Boot == [K EXCEPT !.ready = [i \in 1..NT |-> HStep(i)]]
 Ev(ev, t, res, sm) == [ev |-> ev, t |-> t, res |-> res, value |-> sm.value, waiting |-> Len(sm.waiters)]
 Feed(e) == /\ pst' = SemApply(pst, e).p
            /\ pbad' = pbad \cup SemApply(pst, e).bad
-H(t, c) == [w |-> "t", t |-> t, c |-> c, at |-> K.nh]
-HE(t, c) == [w |-> "e", t |-> t, c |-> c, at |-> K.nh]
+H(t, c) == [w |-> "t", t |-> t, c |-> c, at |-> K.nh, cyc |-> K.cycle]
+HE(t, c) == [w |-> "e", t |-> t, c |-> c, at |-> K.nh, cyc |-> K.cycle]
 ResOf(r) == IF ~IsExc(r) THEN "ok" ELSE IF IsCancel(r) THEN "cancelled" ELSE "error"
 
 ClientInit(t) ==
